@@ -137,6 +137,11 @@ def compare(interp, op, a, b, node):
         return r if isinstance(op, ast.In) else z3.Not(r)
     a = interp.need(a)
     b = interp.need(b)
+    if isinstance(a, VObj) and isinstance(b, VObj) and a.model is not None and a.model.order_key \
+            and b.model is a.model:
+        ka = VTuple([a.fields[f] for f in a.model.order_key])
+        kb = VTuple([b.fields[f] for f in a.model.order_key])
+        return tuple_order(interp, op, ka, kb, node)
     if is_num(a) and is_num(b):
         if isinstance(a, VFloat) or isinstance(b, VFloat):
             x, y = as_real(a), as_real(b)
